@@ -17,6 +17,7 @@ import (
 	"github.com/free5gc/go-upf/internal/verif/fullstack"
 	"github.com/free5gc/go-upf/internal/verif/rulepath"
 	"github.com/free5gc/go-upf/internal/verif/simkernel"
+	"github.com/free5gc/go-upf/internal/verif/stack"
 	"github.com/free5gc/go-upf/internal/verif/vcore"
 )
 
@@ -533,9 +534,9 @@ func checkQER(q *QER) *vcore.Violation {
 	for k, ord := range [][]int{q.Order, rev(q.Order)} {
 		d.K.Reset()
 		if q.Update {
-			_ = d.G.UpdateQER(q.SEID, q.IE(ord))
+			_ = d.G.UpdateQER(q.SEID, stack.OffWire(q.IE(ord)))
 		} else {
-			_ = d.G.CreateQER(q.SEID, q.IE(ord))
+			_ = d.G.CreateQER(q.SEID, stack.OffWire(q.IE(ord)))
 		}
 		req, v := theAdd(d, gtp5gnl.CMD_ADD_QER)
 		if v != nil {
@@ -572,9 +573,9 @@ func checkBAR(b *BAR) *vcore.Violation {
 	for k, ord := range [][]int{b.Order, rev(b.Order)} {
 		d.K.Reset()
 		if b.Update {
-			_ = d.G.UpdateBAR(b.SEID, b.IE(ord))
+			_ = d.G.UpdateBAR(b.SEID, stack.OffWire(b.IE(ord)))
 		} else {
-			_ = d.G.CreateBAR(b.SEID, b.IE(ord))
+			_ = d.G.CreateBAR(b.SEID, stack.OffWire(b.IE(ord)))
 		}
 		req, v := theAdd(d, gtp5gnl.CMD_ADD_BAR)
 		if v != nil {
@@ -682,9 +683,9 @@ func checkURRs(us []URR) (v *vcore.Violation, perioChecks int) {
 		d.K.TakeLog()
 		switch u.Verb {
 		case "create":
-			_ = d.G.CreateURR(u.SEID, u.IE(u.Order))
+			_ = d.G.CreateURR(u.SEID, stack.OffWire(u.IE(u.Order)))
 		case "update":
-			_, _ = d.G.UpdateURR(u.SEID, u.IE(u.Order))
+			_, _ = d.G.UpdateURR(u.SEID, stack.OffWire(u.IE(u.Order)))
 		case "remove":
 			_, _ = d.G.RemoveURR(u.SEID, u.IE(nil))
 		}
@@ -709,9 +710,9 @@ func checkURRs(us []URR) (v *vcore.Violation, perioChecks int) {
 			alt.ID ^= 0x40000000
 			d.K.TakeLog()
 			if u.Verb == "create" {
-				_ = d.G.CreateURR(alt.SEID, alt.IE(rev(u.Order)))
+				_ = d.G.CreateURR(alt.SEID, stack.OffWire(alt.IE(rev(u.Order))))
 			} else {
-				_, _ = d.G.UpdateURR(alt.SEID, alt.IE(rev(u.Order)))
+				_, _ = d.G.UpdateURR(alt.SEID, stack.OffWire(alt.IE(rev(u.Order))))
 			}
 			req2, x := theAdd(d, gtp5gnl.CMD_ADD_URR)
 			if x != nil {
